@@ -5,7 +5,8 @@ outside the list below raises Unsupported and the tie is reported broken.
 Accepted (unit Simulator._update_agents_for_execution):
   body       : docstring; one `for <v> in <list parameter>:` loop
   loop body  : `x = self.id2agent[<v>.<int attribute>]` / annotated   -> x is a reference (KeyError when the key is missing)
-               `x = <v>.<attribute>` / annotated                      -> x is a value (attributes of ExecutionLog listed below)
+               `x = e` / annotated                                    -> x is a value: an attribute of <v> (ExecutionLog, listed below) or
+                                                                          arithmetic over such values
                `<ref>.cash_amount += e` / `-= e`                       -> in-place update of the referenced agent's cash
                `<ref>.asset_volumes[k] += e` / `-= e`                  -> in-place update of an existing entry (KeyError when missing)
   expressions: the arithmetic of py2coq_arith.py over the value locals (floats as rationals, ints as Z)
@@ -100,11 +101,13 @@ def translate_update_agents(repo):
                 closing += 1
                 refs.add(name)
             else:
-                la = log_attr(val)
-                if la is None:
+                # a value local: an attribute of the loop variable, or arithmetic over value locals
+                t, ty = value(val)
+                ty = "Z" if ty == "Zlit" else ty
+                if ty not in ("Q", "Z"):
                     raise Unsupported("right-hand side " + ast.unparse(val)[:80])
-                lines.append(f"let {name} := {la[0]} in")
-                env[name] = (name, la[1])
+                lines.append(f"let {name} := {t} in")
+                env[name] = (name, ty)
         elif isinstance(s, ast.AugAssign) and isinstance(s.op, (ast.Add, ast.Sub)):
             t = s.target
             plus = isinstance(s.op, ast.Add)
